@@ -360,18 +360,30 @@ Definition c07_iter (g : g7) (st : dstate) (it : iter) (post : dstate) (obs : li
     || match nget k (d_regs st) with Some _ => match nget k (d_regs post) with None => true | Some _ => false end
                                    | None => false end in
   (* probes that were (re)started in this iteration - by a registration, a lost tie-break, a
-     conflict - begin a new series of three *)
+     conflict - begin a new series of three (seen in the state after the datagrams, after the calls
+     or at the end: a later start_time, or a next_send that moved back) *)
+  let g4 := filter (fun d => g_v4 d) (it_dgrams it) in
+  let g6 := filter (fun d => negb (g_v4 d)) (it_dgrams it) in
+  let '(st1, _, js1) := handle_dgrams st (g4 ++ g6) now (it_jitter it) in
+  let '(st2, _, js2) := exec_calls st1 (it_calls it) now js1 in
+  let '(st3, _, _) := retransmit st2 now js2 in
   let restarted : list pkey :=
-    flat_map (fun ir => flat_map (fun np =>
+    flat_map (fun mid : dstate =>
+      flat_map (fun ir => flat_map (fun np =>
                 match aget (fst np) (rg_probing (get_reg st (fst ir))) with
-                | Some p0 => if pb_start p0 <? pb_start (snd np) then [(fst ir, lname (fst np))] else []
+                | Some p0 => if (pb_start p0 <? pb_start (snd np)) || (pb_next (snd np) <? pb_next p0)
+                             then [(fst ir, lname (fst np))] else []
                 | None => [(fst ir, lname (fst np))]
-                end) (rg_probing (snd ir))) (d_regs post) in
+                end) (rg_probing (snd ir))) (d_regs mid)) [st1; st2; post] in
   let keepk (k : pkey) : bool := negb (gone (fst k)) && negb (existsb (pkey_eqb k) restarted) in
   let last0 := filter (fun kv => keepk (fst kv)) (g_last g) in
   let cnt0 := filter (fun kv => keepk (fst kv)) (g_cnt g) in
   let rcnt0 := filter (fun kv => keepk (fst (fst kv), lname (r_name (snd (fst kv))))) (g_rcnt g) in
   let est0 := filter (fun k => negb (gone (fst k))) (g_est g) in
+  (* a series that is complete by now counts even when this iteration starts a new one for the name
+     (a further record of the name goes into a fresh probe) *)
+  let lastg := filter (fun kv => negb (gone (fst (fst kv)))) (g_last g) in
+  let cntg := filter (fun kv => negb (gone (fst (fst kv)))) (g_cnt g) in
   (* 1. probe spacing *)
   let pn := probed_names obs in
   let v_space :=
@@ -390,9 +402,9 @@ Definition c07_iter (g : g7) (st : dstate) (it : iter) (post : dstate) (obs : li
   let est :=
     fold_left (fun acc kc => let '(k, c) := kc in
                              if (3 <=? c)
-                                && match kget pkey_eqb k last0 with Some l => l + 250 <=? now | None => false end
+                                && match kget pkey_eqb k lastg with Some l => l + 250 <=? now | None => false end
                                 && negb (existsb (pkey_eqb k) acc)
-                             then acc ++ [k] else acc) cnt0 est0 in
+                             then acc ++ [k] else acc) cntg est0 in
   let established (i : N) (n : bytes) : bool :=
     existsb (same_name_ci n) free || existsb (pkey_eqb (i, lname n)) est in
   (* names of services whose addresses do not follow the interface table: they keep their
@@ -424,11 +436,6 @@ Definition c07_iter (g : g7) (st : dstate) (it : iter) (post : dstate) (obs : li
   let due := due_work post in
   (* known deviation: a probe that prepare_announce creates while a RegisterResend runs (the
      registry of the interface was reset in between) gets no timer *)
-  let g4 := filter (fun d => g_v4 d) (it_dgrams it) in
-  let g6 := filter (fun d => negb (g_v4 d)) (it_dgrams it) in
-  let '(st1, _, js1) := handle_dgrams st (g4 ++ g6) now (it_jitter it) in
-  let '(st2, _, js2) := exec_calls st1 (it_calls it) now js1 in
-  let '(st3, _, _) := retransmit st2 now js2 in
   let probes_of (d : dstate) : list (pkey * N) :=
     flat_map (fun ir => map (fun np => ((fst ir, [fst np]), pb_next (snd np))) (rg_probing (snd ir))) (d_regs d) in
   let key_next_eqb (a b : pkey * N) : bool := pkey_eqb (fst a) (fst b) && (snd a =? snd b) in
